@@ -141,6 +141,7 @@ def envOf (names : List String) (vals : List Nat) : String → Nat :=
   C19 denotetable TERM (inputs)                spec: value at every point of the box
   C19 tensortable TENSOR (inputs)              value of a tensor at every named point of the box
   C19 lazyalign LTERM ("name"…) (inputs)       Funsor.align / Align.align / Contraction.align on a lazy term
+  C19 madeop OP TENSOR TENSOR                  make_op rule: to_data by name, raw fn, to_funsor
   C19 deltaalign ("term name"…) ("name"…)     Delta.align: order of the terms
 -/
 def handle (args : List Sexp) : String :=
@@ -221,6 +222,14 @@ def handle (args : List Sexp) : String :=
         "ok " ++ toString (Sexp.list [Sexp.list (t'.keys.map Sexp.str), Sexp.ofBool (LTerm.isAlign t'),
           Sexp.list ((tab t).map showV), Sexp.list ((tab t').map showV)])
     | _, _, _ => "err bad-args"
+  | [Sexp.atom "madeop", Sexp.atom opn, t1, t2] =>
+    match parseTensor t1, parseTensor t2 with
+    | some x, some y =>
+      let f : V → V → V := fun a b => match a, b with
+        | some p, some q => some (if opn == "sub2" then p - 2 * q else p + 100 * q)
+        | _, _ => none
+      showExcT (madeOp2 f x y)
+    | _, _ => "err bad-args"
   | [Sexp.atom "deltaalign", terms, names] =>
     match terms.asStrs?, names.asStrs? with
     | some ts, some names =>
